@@ -908,7 +908,7 @@ class XsdElement(XsdComponent, ParticleMixin,
                 fields = tuple(
                     s.get_value(element_node, context.namespaces) for s in selectors
                 )
-            except (XMLSchemaValueError, XMLSchemaTypeError) as err:
+            except (ValueError, XMLSchemaTypeError) as err:
                 context.validation_error(validation, self, err, obj)
             else:
                 if None not in fields or nilled:
